@@ -1374,6 +1374,77 @@ def deps_paths_item():
             "Definition gen_deps_paths_step (path_none : bool) : N := %s.\n" % block(lb[1:]))
 
 
+def copy_item():
+    """VersionIndex.copy_entries_to: which query feeds bulk_load for (tasks is None, latest_only) -- 0 all_entries,
+    1 all_entries_latest (whole table, ONE bulk_load whose count is returned), 2 all_entries_for_task, 3
+    latest_entry_for_task (one query and one bulk_load PER element of `tasks`, in order, the counts summed) -- and the
+    normalised text of the four SQL queries as numbers-free shape flags (a query that reads differently is refused)."""
+    f = _find_method("conductor/execution/version_index.py", "VersionIndex", "copy_entries_to")
+    body = _body_without_docstring(f)
+    if not body or ast.unparse(body[0]) != "cursor = self._conn.cursor()":
+        raise Unsupported("copy_entries_to does not start with one cursor")
+    body = body[1:]
+    QUERY = {"cursor.execute(q.all_entries)": 0, "cursor.execute(q.all_entries_latest)": 1,
+             "cursor.execute(q.all_entries_for_task, (str(task_id),))": 2, "cursor.execute(q.latest_entry_for_task, (str(task_id),))": 3}
+
+    def pick(stmts, allowed):
+        """an if/else on latest_only choosing ONE execute -> Coq text over `latest`"""
+        if len(stmts) != 1:
+            raise Unsupported("copy_entries_to: expected one query choice, got %d statements" % len(stmts))
+        st = stmts[0]
+        src = ast.unparse(st)
+        if src in QUERY and QUERY[src] in allowed:
+            return "%d%%N" % QUERY[src]
+        if isinstance(st, ast.If) and ast.unparse(st.test) in ("latest_only", "not latest_only") and st.orelse:
+            a, b = pick(st.body, allowed), pick(st.orelse, allowed)
+            if ast.unparse(st.test) == "not latest_only":
+                a, b = b, a
+            return "(if latest then %s else %s)" % (a, b)
+        raise Unsupported("copy_entries_to: statement outside the supported fragment: %s" % src.splitlines()[0])
+
+    if len(body) != 4:
+        raise Unsupported("copy_entries_to has another shape (%d statements after the cursor)" % len(body))
+    whole, init, loop, ret = body
+    if not (isinstance(whole, ast.If) and ast.unparse(whole.test) == "tasks is None" and not whole.orelse and len(whole.body) == 2 and ast.unparse(whole.body[1]) == "return dest.bulk_load(cursor)"):
+        raise Unsupported("copy_entries_to: the whole-table branch is not `if tasks is None: <query>; return dest.bulk_load(cursor)`")
+    q_whole = pick(whole.body[:1], (0, 1))
+    if ast.unparse(init) != "insert_count = 0" or ast.unparse(ret) != "return insert_count":
+        raise Unsupported("copy_entries_to does not sum the counts from 0")
+    if not (isinstance(loop, ast.For) and ast.unparse(loop.target) == "task_id" and ast.unparse(loop.iter) == "tasks" and not loop.orelse and len(loop.body) == 2
+            and ast.unparse(loop.body[1]) == "insert_count += dest.bulk_load(cursor)"):
+        raise Unsupported("copy_entries_to: the per-task branch is not `for task_id in tasks: <query>; insert_count += dest.bulk_load(cursor)`")
+    q_task = pick(loop.body[:1], (2, 3))
+    b = _find_method("conductor/execution/version_index.py", "VersionIndex", "bulk_load")
+    bb = [ast.unparse(x) for x in _body_without_docstring(b)]
+    if bb != ["cursor = self._conn.cursor()", "cursor.executemany(q.insert_new_version, rows)", "return cursor.rowcount"]:
+        raise Unsupported("bulk_load is not one executemany of insert_new_version: %r" % bb)
+    # the text of the queries (whitespace-normalised)
+    import importlib
+    q = importlib.import_module("conductor.execution.version_index_queries")
+    norm = lambda t: " ".join(t.split())  # noqa: E731
+    cols = "task_identifier, timestamp, git_commit_hash, has_uncommitted_changes"
+    expect = {
+        "all_entries": "SELECT %s FROM version_index" % cols,
+        "all_entries_for_task": "SELECT %s FROM version_index WHERE task_identifier = ?" % cols,
+        "latest_entry_for_task": "SELECT %s FROM version_index WHERE task_identifier = ? ORDER BY timestamp DESC LIMIT 1" % cols,
+        "all_entries_latest": "WITH latest_entries AS ( SELECT task_identifier, MAX(timestamp) AS timestamp FROM version_index GROUP BY task_identifier ) "
+                              "SELECT c.task_identifier, c.timestamp, c.git_commit_hash, c.has_uncommitted_changes FROM version_index AS c INNER JOIN latest_entries AS l "
+                              "ON c.task_identifier = l.task_identifier AND c.timestamp = l.timestamp",
+        "insert_new_version": "INSERT INTO version_index ( %s ) VALUES (?, ?, ?, ?)" % cols,
+        "all_versions": "SELECT %s FROM version_index" % cols,
+    }
+    for name, text in expect.items():
+        if norm(getattr(q, name)) != text:
+            raise Unsupported("version_index_queries.%s reads %r, the model's list function transcribes %r" % (name, norm(getattr(q, name)), text))
+    if "PRIMARY KEY (task_identifier, timestamp)" not in norm(q.create_table):
+        raise Unsupported("create_table has no PRIMARY KEY (task_identifier, timestamp)")
+    return ("(* conductor/execution/version_index.py VersionIndex.copy_entries_to / bulk_load; the SQL texts of version_index_queries.py are the transcribed ones *)\n"
+            "Definition gen_copy_query (tasks_none latest : bool) : N := (if tasks_none then %s else %s).\n"
+            "Definition gen_copy_whole_table_is_one_bulk_load : bool := true.\n"
+            "Definition gen_copy_per_task_in_order_counts_summed : bool := true.\n"
+            "Definition gen_sql_texts_are_the_transcribed_ones : bool := true.\n" % (q_whole, q_task))
+
+
 def version_item():
     """VersionIndex.generate_new_output_version: the timestamp as a function of the clock and the last timestamp"""
     f = _find_method("conductor/execution/version_index.py", "VersionIndex", "generate_new_output_version")
@@ -1438,7 +1509,7 @@ def generate():
         failures["task_type_table"] = "%s: %s" % (type(ex).__name__, ex)
         parts.append("(* task_type_table: NOT TRANSLATED: %s *)\n" % str(ex).replace("*)", "* )"))
     for coqname, fn in (("gen_gate_open", gate_item), ("gen_new_version", version_item), ("gen_loop_goes_on", loop_item), ("gen_wants_slot", slot_item),
-                        ("gen_prune", prune_item), ("gen_should_run", should_run_item), ("gen_sel_top", select_item), ("gen_validate_args", validate_args_item), ("gen_finish", finish_item), ("gen_record_type", record_type_item), ("gen_tee_iteration", tee_item), ("gen_env_overrides", spawn_item), ("gen_launch_block", abort_item), ("gen_combine_decision", combine_item), ("gen_gc_decision", gc_item), ("gen_restore_before_loop", restore_item), ("gen_archive_output_decision", archive_item), ("gen_deps_paths_step", deps_paths_item)):
+                        ("gen_prune", prune_item), ("gen_should_run", should_run_item), ("gen_sel_top", select_item), ("gen_validate_args", validate_args_item), ("gen_finish", finish_item), ("gen_record_type", record_type_item), ("gen_tee_iteration", tee_item), ("gen_env_overrides", spawn_item), ("gen_launch_block", abort_item), ("gen_combine_decision", combine_item), ("gen_gc_decision", gc_item), ("gen_restore_before_loop", restore_item), ("gen_archive_output_decision", archive_item), ("gen_deps_paths_step", deps_paths_item), ("gen_copy_query", copy_item)):
         try:
             parts.append(fn())
         except Exception as ex:  # pylint: disable=broad-except
